@@ -111,6 +111,7 @@ type Flag struct {
 	ret     bool // retof(...): tracks the result of the last matching call
 	retT    types.Type
 	sort    string
+	iter    *loopInfo // iteration-local event of that loop (`loop L body` clauses): reset at the loop head, patterns evaluated at the call
 }
 
 type loopInfo struct {
@@ -127,55 +128,57 @@ type loopInfo struct {
 
 type FnCtx struct {
 	sortCtx
-	L          *Loaded
-	fn         *ssa.Function
-	spec       *FuncSpec
-	specs      *SpecSet
-	asserts    []Term
-	regs       map[ssa.Value]*Val
-	nfresh     int
-	heapSort   map[string]string
-	entry      *State
-	obls       []*Obligation
-	flags      []*Flag
-	loops      map[*ssa.BasicBlock]*loopInfo
-	loopOrd    []*loopInfo
-	dry        bool
-	writesB    map[*ssa.BasicBlock]map[string]bool
-	cellsWB    map[*ssa.BasicBlock]map[*ssa.Alloc]bool
-	callsB     map[*ssa.BasicBlock]bool
-	curBlock   *ssa.BasicBlock
-	cells      map[*ssa.Alloc]bool // allocs treated as local cells
-	ghosts     map[string]*Val
-	assumed    map[string]bool
-	implUsed   map[string]*types.Named
-	funUsed    map[string]string      // uninterpreted function decls
-	trusted    map[string]bool        // assumed contracts / observers used
-	names      map[string][]ssa.Value // source-level names -> values (DebugRef)
-	addrNames  map[string][]ssa.Value // address-taken variables: name -> its address
-	houdini    []*candidate
-	retVals    []*retSite
-	strConst   map[string]string
-	curPos     token.Pos
-	uid        string
-	inst       *clause // instance hypothesis (slots ... assume)
-	qDepth     int
-	qFacts     [][]Term
-	curLoop    *loopInfo
-	lemmasUsed []string
-	acts       map[string]Term // activation literal per named loop invariant
-	actOrder   []string
-	assertBlk  map[int]*ssa.BasicBlock
-	reachMemo  map[[2]int]bool
-	heapTok    map[string]Term
-	assertAct  map[int]string // assumption index -> name of the invariant/lemma/precondition it belongs to
-	atPrev     map[string]string
-	inl        *inlFrame // non-nil while a function literal is executed in place
-	inlSeq     int
-	atFns      map[string]string
-	virt       map[*ssa.Alloc][]*Val
-	exitBound  map[*clause]*boundClause
-	virtAddr   map[*ssa.IndexAddr]virtCell
+	L           *Loaded
+	fn          *ssa.Function
+	spec        *FuncSpec
+	specs       *SpecSet
+	asserts     []Term
+	regs        map[ssa.Value]*Val
+	nfresh      int
+	heapSort    map[string]string
+	entry       *State
+	obls        []*Obligation
+	flags       []*Flag
+	loops       map[*ssa.BasicBlock]*loopInfo
+	loopOrd     []*loopInfo
+	dry         bool
+	writesB     map[*ssa.BasicBlock]map[string]bool
+	cellsWB     map[*ssa.BasicBlock]map[*ssa.Alloc]bool
+	callsB      map[*ssa.BasicBlock]bool
+	curBlock    *ssa.BasicBlock
+	cells       map[*ssa.Alloc]bool // allocs treated as local cells
+	ghosts      map[string]*Val
+	assumed     map[string]bool
+	implUsed    map[string]*types.Named
+	funUsed     map[string]string      // uninterpreted function decls
+	trusted     map[string]bool        // assumed contracts / observers used
+	names       map[string][]ssa.Value // source-level names -> values (DebugRef)
+	addrNames   map[string][]ssa.Value // address-taken variables: name -> its address
+	houdini     []*candidate
+	retVals     []*retSite
+	strConst    map[string]string
+	curPos      token.Pos
+	uid         string
+	inst        *clause // instance hypothesis (slots ... assume)
+	qDepth      int
+	qFacts      [][]Term
+	curLoop     *loopInfo
+	lemmasUsed  []string
+	acts        map[string]Term // activation literal per named loop invariant
+	actOrder    []string
+	assertBlk   map[int]*ssa.BasicBlock
+	reachMemo   map[[2]int]bool
+	heapTok     map[string]Term
+	assertAct   map[int]string // assumption index -> name of the invariant/lemma/precondition it belongs to
+	atPrev      map[string]string
+	inl         *inlFrame                  // non-nil while a function literal is executed in place
+	bindIter    *loopInfo                  // loop whose body clause is being bound
+	iterEntFlag map[*loopInfo]map[int]Term // value of iteration-local flags on entry to an inner loop
+	inlSeq      int
+	atFns       map[string]string
+	virt        map[*ssa.Alloc][]*Val
+	exitBound   map[*clause]*boundClause
+	virtAddr    map[*ssa.IndexAddr]virtCell
 }
 
 type virtCell struct {
@@ -1235,6 +1238,19 @@ func (c *FnCtx) phiMerge(st *State, phi *ssa.Phi, edges []inEdge) *Val {
 
 // loopHead: check invariants on entry, havoc, assume invariants.
 func (c *FnCtx) loopHead(li *loopInfo, ent *State, edges []inEdge) *State {
+	if c.iterEntFlag == nil {
+		c.iterEntFlag = map[*loopInfo]map[int]Term{}
+	}
+	c.iterEntFlag[li] = map[int]Term{}
+	for _, f := range c.flags {
+		if f.iter != nil && f.iter != li && !f.ret {
+			t := ent.flags[f.id]
+			if t == "" {
+				t = "false"
+			}
+			c.iterEntFlag[li][f.id] = t
+		}
+	}
 	b := li.header
 	// entry values of phis
 	entryPhi := map[*ssa.Phi]*Val{}
@@ -1274,7 +1290,19 @@ func (c *FnCtx) loopHead(li *loopInfo, ent *State, edges []inEdge) *State {
 		if i > 0 && hk[i-1] == k {
 			continue
 		}
+		subs := partialStable[k]
+		var oldH Term
+		if len(subs) > 0 && !c.dry {
+			oldH = c.heapGet(hd, k, c.heapSort[k])
+		}
 		hd.heaps[k] = c.fresh(c.heapSym(k), c.heapSort[k])
+		if len(subs) > 0 && !c.dry {
+			// iterations keep the heap's values at the references declared immutable
+			for _, sub := range subs {
+				c.declare(sub, fmt.Sprintf("(declare-fun %s (Int) Int)", sub))
+				c.assume(fmt.Sprintf("(forall ((r Int)) (! (=> (< r %s) (= (select %s (%s r)) (select %s (%s r)))) :pattern ((select %s (%s r)))))", ent.nextRef, hd.heaps[k], sub, oldH, sub, hd.heaps[k], sub))
+			}
+		}
 	}
 	var cks []*ssa.Alloc
 	for k := range li.cellsW {
@@ -1287,6 +1315,15 @@ func (c *FnCtx) loopHead(li *loopInfo, ent *State, edges []inEdge) *State {
 		hd.cells[k] = v.S
 	}
 	for _, f := range c.flags {
+		if f.iter == li {
+			// a new iteration starts: nothing has been called yet
+			if f.ret {
+				hd.flags[f.id] = c.fresh(fmt.Sprintf("ret%d", f.id), f.sort)
+			} else {
+				hd.flags[f.id] = "false"
+			}
+			continue
+		}
 		if !c.flagTouchedIn(f, li) {
 			// no call in the loop can raise this event: the flag keeps its entry value
 			if old, ok := ent.flags[f.id]; ok {
@@ -1344,6 +1381,7 @@ func (c *FnCtx) backEdge(li *loopInfo, from *ssa.BasicBlock, st *State, cond Ter
 		c.regs[phi] = v
 	}
 	c.loopInvariants(li, st, cond, fmt.Sprintf("back.b%d", from.Index))
+	c.loopBodies(li, st, cond, from)
 	for phi, v := range saved {
 		c.regs[phi] = v
 	}
@@ -2149,7 +2187,19 @@ func (c *FnCtx) havocAll(st *State) {
 	}
 	sort.Strings(ks)
 	for _, k := range ks {
+		subs := partialStable[k]
+		var old Term
+		if len(subs) > 0 && !c.dry {
+			old = c.heapGet(st, k, c.heapSort[k])
+		}
 		st.heaps[k] = c.fresh(c.heapSym(k), c.heapSort[k])
+		if len(subs) > 0 && !c.dry {
+			// the heap keeps its values at the references declared immutable
+			for _, sub := range subs {
+				c.declare(sub, fmt.Sprintf("(declare-fun %s (Int) Int)", sub))
+				c.assume(fmt.Sprintf("(forall ((r Int)) (! (=> (< r %s) (= (select %s (%s r)) (select %s (%s r)))) :pattern ((select %s (%s r)))))", st.nextRef, st.heaps[k], sub, old, sub, st.heaps[k], sub))
+			}
+		}
 	}
 	nr := c.fresh("nextref", "Int")
 	c.assume(app("<=", st.nextRef, nr))
